@@ -66,6 +66,9 @@ func OTwindows(p *load.Program, run *report.Run) {
 	run.Rule("window-alignment", "inside a stride loop (i += W) over a batch every batch-sized sequence is addressed relative to the window (index or slice bound depending on i); scratch buffers of constant length are exempt")
 	lints.WindowAlignment(p, run, []string{"ot"}, nil)
 	run.Floor("stride-loops", 6)
+	run.Rule("stride-tail", "a loop over whole groups of K elements (i+K <= n; i += K) is followed by a tail for the last n mod K elements or guarded by n % K; with a built-in positive and negative example")
+	lints.StrideTail(p, run, []string{"ot", "gmw", "vole"})
+	run.Floor("stride-tail-examples", 2)
 }
 
 // C10take: the take-the-remainder rule over the GMW triple pool.
